@@ -257,6 +257,27 @@ def run(ctx):
                    'the sum %s of unit vectors to the neighbours is used as a direction or axis only '
                    'after a test of its length (%d uses without)' % (norm(st.value), len(unguarded)),
                    pmod, unguarded[0] if unguarded else st)
+        # a sum that is used where it is written (no local of its own) cannot have been tested
+        for node in walk_no_nested(fn):
+            if not isinstance(node, (ast.BinOp, ast.UnaryOp)):
+                continue
+            par = node._parent
+            if isinstance(par, (ast.BinOp, ast.UnaryOp)) and terms(par) is not None:
+                continue            # not maximal
+            ts = terms(node)
+            if ts is None or len(ts) < 2:
+                continue
+            if isinstance(par, ast.Assign) and par.value is node and isinstance(par.targets[0], ast.Name):
+                continue            # handled above
+            n_sums += 1
+            txt = norm(node)
+            tested = any(('(%s).length()' % txt) in norm(e) or ('%s.length()' % txt) in norm(e)
+                         for e, _p in facts_at(node, fn))
+            in_test = isinstance(par, ast.Attribute) and par.attr == 'length'
+            ctx.ob('C17.R5', 'sum-of-unit-vectors-tested:%s:%s' % (qual, anorm(node, fn)[:50]),
+                   tested or in_test,
+                   'the sum %s of unit vectors to the neighbours is used as a direction or axis only '
+                   'after a test of its length (used where it is written, untested)' % txt, pmod, node)
     ctx.need('C17.R5', 3)
     ctx.note('direction_sums', n_sums)
 
